@@ -15,9 +15,9 @@
 (*   {"k":"panic"}                              the code under test panicked*)
 (*   {"k":"end"}                                                            *)
 (*                                                                         *)
-(* P is non-deterministic in the replica state (an own write may or may    *)
-(* not be applied optimistically), so the evaluator carries the set of     *)
-(* replica states still compatible with everything observed (`cands`).     *)
+(* P leaves the policy for own writes open (applied optimistically or only *)
+(* forwarded), so the evaluator carries the set of (policy, replica state) *)
+(* pairs still compatible with everything observed (`cands`).              *)
 (* A case is REJECTED when that set becomes empty.  Once an input is       *)
 (* outside the link grammar the candidate is "chaos": P is silent, only a  *)
 (* panic is rejected.                                                      *)
@@ -44,7 +44,7 @@ VARIABLES i,        \* next event
           ncases, nrej, nkf
 vars == <<i, cur, cands, dead, ncases, nrej, nkf>>
 
-Cand(s, kf) == [s |-> s, kf |-> kf]
+Cand(s, kf, opt) == [s |-> s, kf |-> kf, opt |-> opt]
 ChaosS == [st |-> "chaos", d |-> 0]
 Input(e) == [f \in DOMAIN e \ {"cbs", "done"} |-> e[f]]
 
@@ -52,9 +52,10 @@ Input(e) == [f \in DOMAIN e \ {"cbs", "done"} |-> e[f]]
 NormalSucc(cd, e) ==
     IF cd.s.st = "chaos" THEN {cd}
     ELSE LET n    == Input(e)
-             succ == P!PSucc(cur.kind, cur.tou, cd.s, n)
-         IN IF succ = {} THEN {Cand(ChaosS, cd.kf)}
-            ELSE {Cand(s2, cd.kf) : s2 \in {x \in succ : P!PStep(cur.kind, cur.ewns, cur.tou, cd.s, n, e.cbs, e.done, x)}}
+             succ == P!PSucc(cur.kind, cur.tou, cd.opt, cd.s, n)
+         IN IF succ = {} THEN {Cand(ChaosS, cd.kf, cd.opt)}
+            ELSE {Cand(s2, cd.kf, cd.opt) :
+                    s2 \in {x \in succ : P!PStep(cur.kind, cur.ewns, cur.tou, cd.opt, cd.s, n, e.cbs, e.done, x)}}
 
 -----------------------------------------------------------------------------
 (* Known findings: swimos_downlink/src/task/map.rs on_event (client map    *)
@@ -75,20 +76,22 @@ KFSucc(cd, e) ==
     IN
     \* F6a: Clear while linked, not synced, events_when_not_synced = false: the map is NOT cleared
        (IF "F6a" \in EnabledFindings /\ n.k = "clear" /\ quiet /\ m # P!EmptyMap /\ e.cbs = <<>>
-        THEN {Cand(s, cd.kf \cup {"F6a"})} ELSE {})
+        THEN {Cand(s, cd.kf \cup {"F6a"}, cd.opt)} ELSE {})
     \* F6b: Take / Drop report their removals although events must not be reported
     \cup (IF "F6b" \in EnabledFindings /\ n.k \in {"take", "drop"} /\ quiet /\ e.cbs # <<>>
              /\ P!BulkRemoveOK(m, m2, e.cbs)
-          THEN {Cand(P!PS(s.st, m2), cd.kf \cup {"F6b"})} ELSE {})
+          THEN {Cand(P!PS(s.st, m2), cd.kf \cup {"F6b"}, cd.opt)} ELSE {})
     \* F6c: Drop(n), 0 < n < size: on_remove is given an empty map instead of the retained entries
     \cup (IF "F6c" \in EnabledFindings /\ ~quiet /\ DropBugApplies(m, n, e.cbs)
-          THEN {Cand(P!PS(s.st, m2), cd.kf \cup {"F6c"})} ELSE {})
+          THEN {Cand(P!PS(s.st, m2), cd.kf \cup {"F6c"}, cd.opt)} ELSE {})
     \cup (IF {"F6b", "F6c"} \subseteq EnabledFindings /\ quiet /\ DropBugApplies(m, n, e.cbs)
-          THEN {Cand(P!PS(s.st, m2), cd.kf \cup {"F6b", "F6c"})} ELSE {})
+          THEN {Cand(P!PS(s.st, m2), cd.kf \cup {"F6b", "F6c"}, cd.opt)} ELSE {})
 
 -----------------------------------------------------------------------------
+\* TLC registers carry the totals to the POSTCONDITION (which cannot see the state)
 TraceInit == /\ i = 1 /\ cur = [id |-> "none"] /\ cands = {} /\ dead = TRUE
              /\ ncases = 0 /\ nrej = 0 /\ nkf = 0
+             /\ TLCSet(1, 0) /\ TLCSet(2, 0) /\ TLCSet(3, 0) /\ TLCSet(4, 0)
 
 \* verdict of the case that ends here
 Finalize ==
@@ -100,12 +103,13 @@ Finalize ==
 TraceNext ==
     /\ i <= Len(Rec)
     /\ i' = i + 1
+    /\ TLCSet(1, i)
     /\ LET e == Rec[i] IN
        IF e.k \in {"reset", "end"} THEN
             /\ Finalize
             /\ cur' = e
             /\ dead' = (e.k = "end")
-            /\ cands' = IF e.k = "reset" THEN {Cand(P!PS("U", P!Empty(e.kind)), {})} ELSE {}
+            /\ cands' = IF e.k = "reset" THEN {Cand(P!PS("U", P!Empty(e.kind)), {}, opt) : opt \in BOOLEAN} ELSE {}
             /\ ncases' = IF e.k = "reset" THEN ncases + 1 ELSE ncases
             /\ nrej' = nrej
        ELSE IF dead THEN UNCHANGED <<cur, cands, dead, ncases, nrej, nkf>>
@@ -115,14 +119,15 @@ TraceNext ==
                /\ dead' = (nx = {})
                /\ nrej' = IF nx = {} THEN nrej + 1 ELSE nrej
                /\ (nx = {}) => PrintT(<<"REJECT", ToJson([id |-> cur.id, at |-> i, ev |-> e,
-                                                           states |-> {[st |-> cd.s.st, d |-> IF cur.kind = "map" /\ cd.s.st # "chaos" THEN P!MapSeq(cd.s.d) ELSE cd.s.d] : cd \in cands}])>>)
+                                                           states |-> {[st |-> cd.s.st, opt |-> cd.opt, d |-> IF cur.kind = "map" /\ cd.s.st # "chaos" THEN P!MapSeq(cd.s.d) ELSE cd.s.d] : cd \in cands}])>>)
                /\ UNCHANGED <<cur, ncases, nkf>>
 
+Totals == TLCSet(2, ncases) /\ TLCSet(3, nrej) /\ TLCSet(4, nkf)
 TraceSpec == TraceInit /\ [][TraceNext]_vars
 
 \* the whole file has been evaluated (anything else is a tool error)
 TraceAccepted ==
-    /\ PrintT(<<"TRACE_RESULT", ToJson([consumed |-> i - 1, total |-> Len(Rec), cases |-> ncases,
-                                         rejected |-> nrej, kfhits |-> nkf])>>)
-    /\ i = Len(Rec) + 1
+    /\ PrintT(<<"TRACE_RESULT", ToJson([consumed |-> TLCGet(1), total |-> Len(Rec), cases |-> TLCGet(2),
+                                         rejected |-> TLCGet(3), kfhits |-> TLCGet(4)])>>)
+    /\ TLCGet(1) = Len(Rec)
 =============================================================================
